@@ -886,8 +886,8 @@ class C20(PropBase):
         error, 3 processing error - all three through the logger; 4 main's `Error: <io error>` and 5 clap's usage error - straight
         to standard error); the harness classifies the bytes of the log file and of standard error against the line main.rs
         builds from the LIBRARY's error (`ERROR <name> - Error reading|processing dump: <err>`, computed in-process)."""
-        if "logc" not in a or a["exit"] == "101" or a["exit"].startswith("sig") or a["exit"] == "timeout" or c["lim"]:
-            return None
+        if "logc" not in a or a["exit"] == "101" or a["exit"].startswith("sig") or a["exit"] == "timeout" or c["lim"] or c["ldi"]:
+            return None          # (--use-local-debuginfo has a fatal message of its own and is outside the model)
         logger_on = c["verbose"] != "off"
         # at the levels off / error nothing but main()'s fatal message is logged - except by the library's own error! calls
         # (--evil-json, local debuginfo, a malformed Linux memory map in a mutated dump)
